@@ -35,6 +35,26 @@ if typing.TYPE_CHECKING:
         )
 
 
+def _as_dataframe(
+    table: typing.Union[pd.DataFrame, npt.NDArray, typing.Sequence, None],
+    like: typing.Optional[pd.DataFrame] = None,
+) -> pd.DataFrame:
+    """
+    Returns `table` as a DataFrame (the form `check_on_geo1`/`check_on_geo2` work on).
+
+    None becomes an empty DataFrame; arrays/lists are wrapped; when `like` is given and
+    the shapes agree, its index and columns are used (rows are matched by position).
+    """
+    if table is None:
+        return pd.DataFrame()
+    if isinstance(table, pd.DataFrame):
+        return table
+    table = np.asarray(table)
+    if like is not None and table.shape == like.shape:
+        return pd.DataFrame(table, index=like.index, columns=like.columns)
+    return pd.DataFrame(table)
+
+
 class GeometryMixin:
     """
     Mixin that gives the ability to define the geometry the instance of the setup class.
@@ -95,11 +115,11 @@ class GeometryMixin:
         file_dict = {
             "sensors names": sens_names,
             "sensors coordinates": sens_coord,
-            "sensors directions": sens_dir,
-            "sensors lines": sens_lines if sens_lines is not None else pd.DataFrame(),
-            "BG nodes": bg_nodes if bg_nodes is not None else pd.DataFrame(),
-            "BG lines": bg_lines if bg_lines is not None else pd.DataFrame(),
-            "BG surfaces": bg_surf if bg_surf is not None else pd.DataFrame(),
+            "sensors directions": _as_dataframe(sens_dir, like=sens_coord),
+            "sensors lines": _as_dataframe(sens_lines),
+            "BG nodes": _as_dataframe(bg_nodes),
+            "BG lines": _as_dataframe(bg_lines),
+            "BG surfaces": _as_dataframe(bg_surf),
         }
 
         # check on input
@@ -176,13 +196,13 @@ class GeometryMixin:
             "sensors names": sens_names,
             "points coordinates": pts_coord,
             "mapping": sens_map,
-            "constraints": cstr if cstr is not None else pd.DataFrame(),
-            "sensors sign": sens_sign if sens_sign is not None else pd.DataFrame(),
-            "sensors lines": sens_lines if sens_lines is not None else pd.DataFrame(),
-            "sensors surfaces": sens_surf if sens_surf is not None else pd.DataFrame(),
-            "BG nodes": bg_nodes if bg_nodes is not None else pd.DataFrame(),
-            "BG lines": bg_lines if bg_lines is not None else pd.DataFrame(),
-            "BG surfaces": bg_surf if bg_surf is not None else pd.DataFrame(),
+            "constraints": _as_dataframe(cstr),
+            "sensors sign": _as_dataframe(sens_sign, like=pts_coord),
+            "sensors lines": _as_dataframe(sens_lines),
+            "sensors surfaces": _as_dataframe(sens_surf),
+            "BG nodes": _as_dataframe(bg_nodes),
+            "BG lines": _as_dataframe(bg_lines),
+            "BG surfaces": _as_dataframe(bg_surf),
         }
 
         # check on input
